@@ -259,7 +259,8 @@ def limits_and_unsupported(chk: Check, tier: str):
                             Fn("check_nested_unsupported()", call_self("boom()")), Fn("check_nested2_unsupported()", call_self("relay()")),
                             Fn("check_nested_symbolic(uint256)", [("PUSHN", 32, int(selector("peek(uint256)"), 16) << 224), ("PUSH", 0), "MSTORE"] + arg(0) + [("PUSH", 4), "MSTORE",
                                 ("PUSH", 0), ("PUSH", 0), ("PUSH", 36), ("PUSH", 0), ("PUSH", 0), "ADDRESS", ("PUSH", 0xFFFFFF), "CALL", "POP", "STOP"])])
-    for cli, what, sig in [(("--width", "2"), "--width", "check_wide(uint256)"), (("--depth", "12"), "--depth", "check_wide(uint256)")]:
+    for cli, what, sig in [(("--width", "2"), "--width", "check_wide(uint256)"), (("--depth", "12"), "--depth", "check_wide(uint256)"),
+                           (("--depth", "38"), "--depth", "check_wide(uint256)")]:
         with capture_paths() as rec:
             out = run_contract(c, cli=cli, funsigs=[sig])
         r = out.by_sig().get(sig)
@@ -408,6 +409,49 @@ def invariant_function_loop(chk: Check, tier: str):
                           "yet the test is a clean PASS without a loop-bound warning", {"targets": order, "halmos_output": (out.stdout + out.logs)[-2000:]})
 
 
+def setup_and_scope(chk: Check, tier: str):
+    """Incomplete exploration outside the body of the test itself: a setUp() stopped inside a nested call, and the same limit hit by tests of the same name in
+    two contracts of one run (halmos runs every contract of a project in one process)."""
+    def call_self(sig):
+        return [("PUSHN", 32, int(selector(sig), 16) << 224), ("PUSH", 0), "MSTORE", ("PUSH", 0), ("PUSH", 0), ("PUSH", 4), ("PUSH", 0), ("PUSH", 0), "ADDRESS", ("PUSH", 0xFFFFFF), "CALL", "POP"]
+
+    # setUp(): x = 1; this.boom() [unsupported opcode]; x = 2.   The test passes exactly on the state in which setUp was abandoned
+    for tag, stuck in (("unsupported-opcode", [("RAW", bytes([0x49])), "STOP"]),):
+        setup = [("PUSH", 1), ("PUSH", 0), "SSTORE"] + call_self("boom()") + [("PUSH", 2), ("PUSH", 0), "SSTORE", "STOP"]
+        test = [("PUSH", 0), "SLOAD", ("PUSH", 1), "EQ", ("PUSHL", "ok"), "JUMPI"] + panic(1) + [("LABEL", "ok"), "STOP"]
+        c = Contract("SetupStuckT", [Fn("setUp()", setup), Fn("boom()", stuck), Fn("check_x_is_one()", test)])
+        out = run_contract(c, funsigs=["check_x_is_one()"])
+        r = out.by_sig().get("check_x_is_one()")
+        text = out.stdout + out.logs + str(out.exception or "")
+        reported = flagged(out, "setUp") or any(w in text for w in ("ERROR", "Error", "Unsupported", "unsupported", "internal-error", "No successful path"))
+        chk.count("traces_validated_against_impl")
+        chk.nontrivial(("setup-stuck-nested", tag))
+        if r is not None and r.exitcode == 0 and not reported:
+            chk.violation(f"setup-stuck-nested:{tag}", "setUp() is stopped by an unsupported opcode inside a nested call; the state at that point (x = 1, the rest of setUp not run) "
+                          "is used as the setUp state and check_x_is_one() is a clean PASS without any report", {"halmos_output": text[-1500:]})
+
+    # (a symbolic loop in the constructor of the test contract cannot be cut silently: deploy_test refuses constructors with
+    #  more than one path - 'constructor: # of paths: n')
+
+    # two contracts of one run with a test of the same signature, both cut by --depth: both must be reported
+    body = arg(0) + [("PUSH", 3), "AND", "DUP1", ("PUSH", 0), "EQ", ("PUSHL", "a"), "JUMPI", "DUP1", ("PUSH", 1), "EQ", ("PUSHL", "b"), "JUMPI",
+                     "DUP1", ("PUSH", 2), "EQ", ("PUSHL", "c"), "JUMPI", "STOP", ("LABEL", "a"), "STOP", ("LABEL", "b"), "STOP", ("LABEL", "c"), "STOP"]
+    for k, name in enumerate(("DeepOne", "DeepTwo")):
+        c = Contract(name, [Fn("setUp()", ["STOP"]), Fn("check_deep(uint256)", uniq(body, "d"))])
+        with capture_paths() as rec:
+            out = run_contract(c, cli=("--depth", "37"), funsigs=["check_deep(uint256)"])
+        r = out.by_sig().get("check_deep(uint256)")
+        if r is None:
+            raise MachineryError(f"no result for check_deep in {name}: {out.stdout[-300:]} {out.exception}")
+        cov = covered_values(rec["tests"].get("check_deep(uint256)", []), range(0, 4))
+        missing = sorted(set(range(4)) - cov)
+        chk.count("traces_validated_against_impl")
+        chk.nontrivial(("same-signature", k, bool(missing)))
+        if missing and r.exitcode == 0 and not flagged(out, "check_deep"):
+            chk.violation(f"limit:--depth:unreported:contract-{k + 1}-of-2", f"{name}.check_deep(uint256) under --depth 37: inputs {missing} unexplored, clean PASS without warning "
+                          "(the test of the same signature in the contract run before it was reported)", {"halmos_output": (out.stdout + out.logs)[-1500:]})
+
+
 def run(chk: Check, tier: str):
     work = workdir("c10")
     try:
@@ -415,6 +459,7 @@ def run(chk: Check, tier: str):
         regular_loops(chk, tier, work)
         limits_and_unsupported(chk, tier)
         setup_loop(chk, tier)
+        setup_and_scope(chk, tier)
         invariant_target_loop(chk, tier, work)
         invariant_target_unsupported(chk, tier)
         invariant_function_loop(chk, tier)
